@@ -138,56 +138,57 @@ type Config struct {
 
 // Sim is one simulation.
 type Sim struct {
-	Cfg             Config
-	Tape            *Tape
-	tasks           []*Task
-	cur             *Task
-	ctlR, ctlW      int
-	now             int64
-	Steps           int64
-	preemptIn       int64
-	events          []event
-	evSeq           uint64
-	ports           []*port
-	outbox          []*Capture
-	ended           []*Task
-	Inc             int
-	Hooks           Hooks
-	stop            bool
-	StopReason      string
-	Verdicts        []Verdict
-	ifaces          []Iface
-	pipePool        [][2]int
-	trace           []TraceRec
-	TraceOn         bool
-	switches        uint64 // hash of context-switch sequence while >=2 runnable
-	Switches        int64
-	crashAt         int64 // global step at which to crash (0 = none)
-	crashSites      []bool
-	crashFn         func(t *Task)
-	stallAt         int64
-	stallNs         int64
-	stallSites      []bool
-	Probes          []int64
-	files           []*simFile
-	watchers        []*Watcher
-	sqlFaultIn      int64 // countdown of sql driver calls until an injected failure; 0 = none
-	sqlFaultKind    int
-	SQLFaults       int64
-	SQLFaultTags    []int64 // datagrams whose handler saw an injected sql failure
-	dbs             []*trackedDB
-	FaultsFired     [NumFaultKinds]int64
-	poolReuse       int // 0: fifo fresh (no reuse), 1: PRNG choice, 2: always reuse most recent
-	fakeFD          int
-	l2socks         []l2sock
-	ReadFileLog     []ReadFileRec
-	readFileErrIn   int
-	TimeSkipped     int64
-	simPaths        []string
-	simDirs         []string
-	userLog         []UserRec
-	InotifyQueueMax int
-	handlerBusyNs   int64
+	Cfg               Config
+	Tape              *Tape
+	tasks             []*Task
+	cur               *Task
+	ctlR, ctlW        int
+	now               int64
+	Steps             int64
+	preemptIn         int64
+	events            []event
+	evSeq             uint64
+	ports             []*port
+	outbox            []*Capture
+	ended             []*Task
+	Inc               int
+	Hooks             Hooks
+	stop              bool
+	StopReason        string
+	Verdicts          []Verdict
+	ifaces            []Iface
+	pipePool          [][2]int
+	trace             []TraceRec
+	TraceOn           bool
+	switches          uint64 // hash of context-switch sequence while >=2 runnable
+	Switches          int64
+	crashAt           int64 // global step at which to crash (0 = none)
+	crashSites        []bool
+	crashFn           func(t *Task)
+	stallAt           int64
+	stallNs           int64
+	stallSites        []bool
+	Probes            []int64
+	files             []*simFile
+	watchers          []*Watcher
+	sqlFaultIn        int64 // countdown of sql driver calls until an injected failure; 0 = none
+	sqlFaultKind      int
+	SQLFaults         int64
+	SQLFaultTags      []int64 // datagrams whose handler saw an injected sql failure
+	dbs               []*trackedDB
+	FaultsFired       [NumFaultKinds]int64
+	poolReuse         int // 0: fifo fresh (no reuse), 1: PRNG choice, 2: always reuse most recent
+	fakeFD            int
+	l2socks           []l2sock
+	ReadFileLog       []ReadFileRec
+	readFileErrIn     int
+	TimeSkipped       int64
+	simPaths          []string
+	simDirs           []string
+	timerOnlyAdvances int
+	userLog           []UserRec
+	InotifyQueueMax   int
+	handlerBusyNs     int64
 }
 
 // TraceRec is one recorded scheduling / world event (for replay files and samples).
@@ -724,6 +725,23 @@ func (s *Sim) Run() RunResult {
 					next = t.WakeAt
 				}
 			}
+			if tn := nextTimer(); tn >= 0 && (next < 0 || tn < next) {
+				// a simulated timer: the tasks parked in a select or receive must look again when it is due.
+				// A server that re-arms a timer forever is idle all the same: after 64 consecutive advances that
+				// were driven by timers alone the run counts as quiescent.
+				blocked := false
+				for _, t := range s.tasks {
+					if t.State == StBlockedChan {
+						blocked = true
+					}
+				}
+				if blocked && s.timerOnlyAdvances < 64 {
+					next = tn
+					s.timerOnlyAdvances++
+				}
+			} else if next >= 0 {
+				s.timerOnlyAdvances = 0
+			}
 			if next < 0 {
 				for _, t := range s.tasks {
 					if t.State == StBlockedLock || t.State == StBlockedWG {
@@ -736,6 +754,9 @@ func (s *Sim) Run() RunResult {
 				s.handlerBusyNs += next - s.now
 			}
 			s.now = next
+			if tn := nextTimer(); tn >= 0 && tn <= s.now {
+				s.ChanWake()
+			}
 			continue
 		}
 		// choose between runnable tasks, a due event, or letting time pass
@@ -806,6 +827,7 @@ func (s *Sim) HandlerBusyNs() int64 { return s.handlerBusyNs }
 
 //go:norace
 func (s *Sim) fire(i int) {
+	s.timerOnlyAdvances = 0
 	e := s.events[i]
 	s.events[i] = s.events[len(s.events)-1]
 	s.events = s.events[:len(s.events)-1]
